@@ -58,6 +58,10 @@ def make_cases(ctx, n_pool, n_coll, n_stack, n_iter, cfgs, faults=True):
             sc = poolgen.gen_script(_random.Random(1000 + k), t, nops=10)
             for c in cfgs:
                 cases.append(dict(exe=ex_pool[c], script=sc, replay_args=['pool'], tag=('coll', t['line'] + ' (boundary)', c)))
+    if n_coll:
+        for t, sc in poolgen.special_colls():
+            for c in cfgs:
+                cases.append(dict(exe=ex_pool[c], script=sc, replay_args=['pool'], tag=('coll', t['line'] + ' (drained)', c)))
     for i in range(n_pool // 2):
         t, sc = poolgen.gen_fragment_script(rng)
         for c in cfgs:
